@@ -417,6 +417,11 @@ func moveOutFile(w *bytes.Buffer, param *syntax.StructMember,
 		_, err := w.Write(nullBytes)
 		return err
 	}
+	// A directory may be named with a trailing separator, which a
+	// symlink cannot be.
+	if trimmed := strings.TrimRight(filePath, "/"); trimmed != "" {
+		filePath = trimmed
+	}
 	// If file doesn't exist (e.g. stage just didn't create it)
 	// then report null
 	if info, err := os.Lstat(filePath); os.IsNotExist(err) {
